@@ -15,6 +15,9 @@ import time
 import traceback
 
 VERIF = os.path.dirname(os.path.dirname(os.path.abspath(__file__)))
+# Scratch runs (seeded-change trials) may redirect their output so that committed evidence is not clobbered.
+EVIDENCE_DIR = os.environ.get("VERIF_EVIDENCE_DIR") or os.path.join(VERIF, "evidence")
+REPLAY_DIR = os.environ.get("VERIF_REPLAY_DIR") or os.path.join(VERIF, "replays")
 PY = os.path.join(VERIF, ".venv", "bin", "python")
 REPLAY_WALL_S = 60
 
@@ -303,7 +306,7 @@ def main(argv=None):
     results.sort(key=lambda r: r["name"])
 
     # ------------------------------------------------------------------ classify
-    os.makedirs(os.path.join(VERIF, "replays", pid), exist_ok=True)
+    os.makedirs(os.path.join(REPLAY_DIR, pid), exist_ok=True)
     violations, harness_errors, inconclusive, discharged = [], [], [], 0
     skipped = []
     known_hit = []
@@ -319,7 +322,7 @@ def main(argv=None):
         if r["expect_refuted"]:
             if res["refuted"] and res["counterexamples"]:
                 rec = {"property": pid, "module": r["module"], "params": r["params"], "args": res["counterexamples"][0]["args"]}
-                path = os.path.join(VERIF, "replays", pid, "twin-%s.json" % _slug(r["name"]))
+                path = os.path.join(REPLAY_DIR, pid, "twin-%s.json" % _slug(r["name"]))
                 with open(path, "w") as f:
                     json.dump(rec, f, indent=1)
                 rc, _ = _native_replay(pid, path)
@@ -341,7 +344,7 @@ def main(argv=None):
                     "args": cex["args"],
                     "detail": cex["detail"],
                 }
-                path = os.path.join(VERIF, "replays", pid, "%s-%d.json" % (_slug(r["name"]), n))
+                path = os.path.join(REPLAY_DIR, pid, "%s-%d.json" % (_slug(r["name"]), n))
                 with open(path, "w") as f:
                     json.dump(rec, f, indent=1)
                 rc, outp = _native_replay(pid, path)
@@ -493,8 +496,8 @@ def write_evidence(mod, pid, tier, seed, results, skipped, discharged, violation
         "wall_s": round(wall, 1),
         "violations": len(violations),
     }
-    os.makedirs(os.path.join(VERIF, "evidence"), exist_ok=True)
-    with open(os.path.join(VERIF, "evidence", "%s.json" % pid), "w") as f:
+    os.makedirs(EVIDENCE_DIR, exist_ok=True)
+    with open(os.path.join(EVIDENCE_DIR, "%s.json" % pid), "w") as f:
         json.dump(ev, f, indent=1, default=repr)
 
 
